@@ -71,11 +71,11 @@ func sysSpec(w *hWorld, u *universe, shard uint32, rcpt []byte, fn string, args 
 
 // gasScenarios builds every scenario on its own fresh two-shard world with the standard holdings:
 // U[0] (shard 0) and U[2] (shard 1) hold every role; U[0] owns NFA#1 (1), SFT#1 (50), SFT#2 (7); U[0],U[1],U[2],K[0] hold 1000 of each fungible.
-func gasScenarios(u *universe, gas map[string]map[string]uint64, sizes []int) []*gasScenario {
+// mkWorld builds the populated two-shard world (C16 passes worlds whose factories went through schedule changes).
+func gasScenarios(u *universe, mkWorld func() *hWorld, sizes []int) []*gasScenario {
 	var out []*gasScenario
 	fresh := func() *hWorld {
-		w := u.stdWorld(2, 0, gas)
-		u.populate(w)
+		w := mkWorld()
 		// K[0] (shard 0) and K[1] (shard 1) are owned by U[0] and carry developer rewards
 		for i, k := range u.K {
 			a := w.shards[i].account(k)
@@ -255,9 +255,9 @@ func gasScenarios(u *universe, gas map[string]map[string]uint64, sizes []int) []
 		w = fresh()
 		add("ESDTNFTTransfer/origin-side-contract-call(forwards)", w, w.mkCall(0, "ESDTNFTTransfer", U[0], U[0], [][]byte{nfa, be(1), be(1), K[1], []byte("deposit")}, 0))
 		w = fresh()
-		addDelivered("ESDTNFTTransfer/destination-side", w, w.mkCall(0, "ESDTNFTTransfer", U[0], U[0], [][]byte{sft, be(1), be(5), U[2]}))
+		addDelivered("ESDTNFTTransfer/destination-side", w, w.mkCall(0, "ESDTNFTTransfer", U[0], U[0], [][]byte{sft, be(1), be(5), U[2]}, 0))
 		w = fresh()
-		addDelivered("ESDTNFTTransfer/destination-side(contract call)", w, w.mkCall(0, "ESDTNFTTransfer", U[0], U[0], [][]byte{sft, be(2), be(3), K[1], []byte("deposit"), {1, 2}}))
+		addDelivered("ESDTNFTTransfer/destination-side(contract call)", w, w.mkCall(0, "ESDTNFTTransfer", U[0], U[0], [][]byte{sft, be(2), be(3), K[1], []byte("deposit"), {1, 2}}, 0))
 	}
 	// ---- MultiESDTNFTTransfer
 	{
@@ -280,10 +280,10 @@ func gasScenarios(u *universe, gas map[string]map[string]uint64, sizes []int) []
 			[][]byte{K[1], be(2), tka, nil, be(10), nfa, be(1), be(1), []byte("deposit"), {4}}, 0))
 		w = fresh()
 		addDelivered("MultiESDTNFTTransfer/destination-side", w, w.mkCall(0, "MultiESDTNFTTransfer", U[0], U[0],
-			[][]byte{U[2], be(2), tka, nil, be(10), sft, be(1), be(5)}))
+			[][]byte{U[2], be(2), tka, nil, be(10), sft, be(1), be(5)}, 0))
 		w = fresh()
 		addDelivered("MultiESDTNFTTransfer/destination-side(contract call)", w, w.mkCall(0, "MultiESDTNFTTransfer", U[0], U[0],
-			[][]byte{K[1], be(1), sft, be(1), be(5), []byte("deposit")}))
+			[][]byte{K[1], be(1), sft, be(1), be(5), []byte("deposit")}, 0))
 	}
 	return out
 }
@@ -306,13 +306,21 @@ func (c *ctx) runOn(sc *gasScenario, gas uint64, emit bool) *callResult {
 
 const learnGas = uint64(1) << 62
 
+func stdPopulated(u *universe, gas map[string]map[string]uint64) func() *hWorld {
+	return func() *hWorld {
+		w := u.stdWorld(2, 0, gas)
+		u.populate(w)
+		return w
+	}
+}
+
 func (c *ctx) sweepGas(u *universe, gas map[string]map[string]uint64, sizes []int, tag string) {
 	c.header = execHeader
 	c.caseType = "xcase"
 	c.mismatchExpr = "xmismatches (" + projGas + ") cases"
 	c.perFile = 250
 	covered := map[string]bool{}
-	for _, sc := range gasScenarios(u, gas, sizes) {
+	for _, sc := range gasScenarios(u, stdPopulated(u, gas), sizes) {
 		name := tag + sc.Name
 		replay := func(g uint64) map[string]interface{} {
 			cs := *sc.Call
@@ -348,6 +356,10 @@ func (c *ctx) sweepGas(u *universe, gas map[string]map[string]uint64, sizes []in
 		}
 		c.count("sweep/class/" + class)
 		c.count("sweep/scenario/" + sc.Call.Fn)
+		if c.rep.Extra == nil {
+			c.rep.Extra = map[string]interface{}{}
+		}
+		c.rep.Extra["scenario:"+name] = map[string]interface{}{"class": class, "learned_charge": charge}
 		if len(c.rep.Samples) < 8 {
 			c.sample(map[string]interface{}{"scenario": name, "class": class, "learned_charge": charge})
 		}
@@ -372,7 +384,7 @@ func (c *ctx) sweepGas(u *universe, gas map[string]map[string]uint64, sizes []in
 				continue
 			}
 			if res.Status != 0 || res.Out == nil {
-				if g >= charge && !consumesAll && g >= learnedFloor(sc, charge) {
+				if g >= charge && !consumesAll {
 					// informational: some functions demand more than they charge (SetUserName on the origin side)
 					c.count("sweep/above-charge-but-rejected/" + sc.Call.Fn)
 				}
@@ -412,9 +424,50 @@ func (c *ctx) sweepGas(u *universe, gas map[string]map[string]uint64, sizes []in
 	}
 }
 
-// learnedFloor: smallest gas at which the scenario is expected to succeed (its charge, except where the function
-// checks its cost without charging it)
-func learnedFloor(sc *gasScenario, charge uint64) uint64 { return charge }
+// probeWrap: OUTSIDE the property's quantifier (costs are not 32-bit): with StorePerByte = 2^63 the product
+// bytes * StorePerByte wraps, the function under-charges, and still no gas is created.  Recorded in the evidence,
+// compared with the model (whose arithmetic wraps explicitly); never a failure unless gas is created.
+func (c *ctx) probeWrap(u *universe) {
+	w := u.stdWorld(2, 0, distinctGas(10, 3))
+	u.populate(w)
+	gas := distinctGas(10, 3)
+	gas["BaseOperationCost"]["StorePerByte"] = 1 << 63
+	for _, sh := range w.shards {
+		sh.factory.GasScheduleChange(gas)
+	}
+	w.gasMap = gas
+	cost := gas["BuiltInCost"]["ESDTNFTAddURI"]
+	for _, n := range []int{1, 2, 3, 4} {
+		sc := &gasScenario{Name: fmt.Sprintf("wrap-probe/ESDTNFTAddURI/StorePerByte=2^63/uri-bytes=%d", n), W: w,
+			Call: w.mkCall(0, "ESDTNFTAddURI", u.U[0], u.U[0], [][]byte{u.NFTs[1], be(1), bytes.Repeat([]byte{'u'}, n)}, 0)}
+		for _, g := range []uint64{cost, cost + 1, 1 << 62, 1<<64 - 1} {
+			res := c.runOn(sc, g, true)
+			c.note(fmt.Sprintf("%s/gas=%d", sc.Name, g), true)
+			c.count("wrap-probe/" + statusName(res.Status))
+			if res.Status != 0 || res.Out == nil {
+				continue
+			}
+			out := gasOut(res.Out)
+			if out.Cmp(new(big.Int).SetUint64(g)) > 0 {
+				c.fail("monitor", "gas-created/ESDTNFTAddURI", fmt.Sprintf("%s: GasRemaining + sum(GasLimit) = %s > GasProvided = %d", sc.Name, out, g),
+					map[string]interface{}{"scenario": sc.Name, "call": describeCall(sc.Call), "gas": g, "gas_schedule": gas})
+				continue
+			}
+			spent := new(big.Int).Sub(new(big.Int).SetUint64(g), out)
+			c.rep.Extra[fmt.Sprintf("%s/gas=%d", sc.Name, g)] = map[string]interface{}{"spent": spent.String(), "own_cost": cost,
+				"note": "informational: a 64-bit per-byte cost wraps in bytes*StorePerByte; even byte counts are stored for the flat cost only"}
+		}
+	}
+}
+
+// maxCostGas: every cost close to the top of the 32-bit range, pairwise distinct
+func maxCostGas() map[string]map[string]uint64 {
+	m := distinctGas(1<<32-100, 5)
+	for i, f := range baseCostFields {
+		m["BaseOperationCost"][f] = 1<<32 - 1 - uint64(i)
+	}
+	return m
+}
 
 func init() {
 	runners["C06"] = func(c *ctx) {
@@ -433,6 +486,7 @@ func init() {
 		c.walk(u, walkOpts{Worlds: n, Ops: ops, Proj: projGas, Monitors: []monitor{monGas}})
 		c.sweepGas(u, distinctGas(10, 3), sizes, "")
 		// 32-bit costs near the top of the range: products stay far below 2^64, sums exceed 2^32
-		c.sweepGas(u, distinctGas(1<<32-100, 5), sizes[:2], "maxcost/")
+		c.sweepGas(u, maxCostGas(), sizes[:2], "maxcost/")
+		c.probeWrap(u)
 	}
 }
